@@ -266,6 +266,9 @@ def run_workload(case: dict) -> Result:
     return res
 
 
+_SHRUNK: dict[tuple, int] = {}
+
+
 def shrink(case: dict, still_fails) -> dict:
     """First reduce to one crash point, then ddmin the operations (keeping think times), re-searching k."""
 
@@ -273,6 +276,12 @@ def shrink(case: dict, still_fails) -> dict:
         c2 = dict(c)
         c2["ks"] = ks
         return c2
+
+    keys = {v.key() for v in run_workload(case).violations}
+    if keys and all(_SHRUNK.get(k, 0) >= 1 for k in keys):
+        return case  # one shrunken witness per mechanism key and worker is enough
+    for k in keys:
+        _SHRUNK[k] = _SHRUNK.get(k, 0) + 1
 
     E, _ = _count_events(case)
     ks = _choose_ks(case["ks"], E or 0)
